@@ -1,15 +1,23 @@
+import importlib.util, os
+_spec = importlib.util.spec_from_file_location("c06_go2lean", os.path.join(os.path.dirname(os.path.abspath(__file__)), "c06_go2lean.py"))
+_g2l = importlib.util.module_from_spec(_spec); _spec.loader.exec_module(_g2l)
+
 T = "GeomV.C06."
 CFG = {
     "id": "C06",
-    "lean_modules": ["GeomV.C06.Proofs"],
+    "lean_modules": ["GeomV.C06.Proofs", "GeomV.C06.Tie"],
+    "pregen": _g2l.pregen,
     "exe": "geomv_c06",
     "go_cmd": "c06",
     "lean_dirs": ["C06", "C17"],
     "stages": ["go:gen", "go:impl", "lean:judge"],
-    "theorems": [T + n for n in ["C06_roundtrip", "C06_shape", "C06_errors", "C06_guard_exact", "C06_encode_total", "C06_decode_rfc", "C06_injective"]],
+    "theorems": [T + n for n in ["C06_roundtrip", "C06_shape", "C06_errors", "C06_guard_exact", "C06_encode_total", "C06_decode_rfc", "C06_injective",
+                                 "C06_tie", "C06_roundtrip_src", "C06_shape_src"]],
     "trusted_base": [
         "Lean 4.33.0 kernel; axioms of every theorem printed by #print axioms must be within {propext, Classical.choice, Quot.sound}",
-        "model lean/GeomV/C06/Model.lean is tied to /repo/encoding/geojson by the correspondence run on every check: ToGeoJSON's typed slices, "
+        "T1: lean/GeomV/C06/Gen.lean is regenerated from /repo/encoding/geojson/{encode,decode,geojson}.go on every run by "
+        "checks/c06_go2lean.py (idiom-level translator: trusted, exercised by T2) and proved equal to the model in Tie.lean",
+        "T2: model lean/GeomV/C06/Model.lean is tied to /repo/encoding/geojson by the correspondence run on every check: ToGeoJSON's typed slices, "
         "Encode's bytes (parsed by the driver's own JSON parser and compared as a tree, key order included), Decode(Encode g), Decode of "
         "generator-written documents and FromGeoJSON on generic trees, all compared exactly (bit patterns, error kinds)",
         "encoding/json number text: Marshal writes for a finite float64 a decimal that ParseFloat reads back to the same bits (stdlib contract); "
@@ -24,7 +32,7 @@ CFG = {
                     "the nil interface value is outside the property (ToGeoJSON(nil) panics in reflect.TypeOf(nil).String())"],
     "rule": "fixed corpus (each type, later-empty members, first-empty members, unsupported, non-finite, exponent boundaries 1e21/1e-6 of "
             "encoding/json, -0, subnormals, 17-digit values, integers above 2^53) + generated geometries of the six types (member counts "
-            "{1,2,3,5}, occasionally 120 vertices; 50% with later members possibly empty; 5% first member empty; 5% one non-finite coordinate; "
+            "{1,2,3,5}, occasionally 120 vertices; 'wide' geometries with 65/129/257/1025 members at exactly one nesting level; 50% with later members possibly empty; 5% first member empty; 5% one non-finite coordinate; "
             "5% GeometryCollection/*Bounds), each giving a ToGeoJSON, an Encode and a Decode(Encode) case; plus generator-written JSON documents "
             "(key order/case/escapes, duplicates, foreign members, white space, alternative number spellings, perturbed nesting/arity) decoded "
             "at text level (Decode) and tree level (FromGeoJSON). distinct = distinct input line; non-trivial = verdict class not 'skipped'",
